@@ -4,7 +4,7 @@ import MxModel.Generated.Tables
 
     reset | newmodel M | newspace M S NAME | newcells M S NAME 0|1
     newpandas M S NAME PATH csv|xl SHEET VAL | bind M S NAME VAL | del M S NAME
-    update M OLD NEW | sheet M VAL SHEET | delspec M VAL | close M | obs
+    update M OLD NEW | sheet M VAL SHEET | setpath M VAL PATH | delspec M VAL | close M | obs
 
 `S = 0` is the model itself; `SHEET = -` is `None`; `VAL` is `d<i>` (pandas), `p<i>` (other
 object) or `i<i>` (Interface).  Every operation answers `ok` or `err <kind>`, followed by
@@ -46,7 +46,7 @@ def dedup {α} [DecidableEq α] : List α → List α
   | a :: rest => a :: (dedup rest).filter (· ≠ a)
 
 def observe (st : St) : String :=
-  let ms := st.models
+  let ms := st.models ++ st.closed.reverse        -- closed models go on living through their handles
   let specs := ms.map (fun m =>
     match rmSpecs st m with
     | .ok l => s!"{m}=[" ++ ",".intercalate (l.map showSpec) ++ "]"
@@ -68,7 +68,9 @@ def trigNames (st : St) (op : Op) : List String :=
   (if trigCellsName st op then ["cells-name"] else []) ++
   (if trigDoubleSpec st op then ["double-spec"] else []) ++
   (if trigDirtyDelete st op then ["del-space"] else []) ++
-  (if trigUpdateOnto st op then ["update-onto-referenced"] else [])
+  (if trigUpdateOnto st op then ["update-onto-referenced"] else []) ++
+  (if trigClosedNew st op then ["closed-model-new-spec"] else []) ++
+  (if trigPathAlias st op then ["path-alias"] else [])
 
 def parseOp (toks : List String) : Option Op :=
   match toks with
@@ -81,6 +83,7 @@ def parseOp (toks : List String) : Option Op :=
   | ["del", m, s, name] => do some (.del ⟨← m.toNat?, ← s.toNat?⟩ name)
   | ["update", m, old, new] => do some (.update (← m.toNat?) (← parseVal? old) (← parseVal? new))
   | ["sheet", m, v, sheet] => do some (.setSheet (← m.toNat?) (← parseVal? v) (parseSheet sheet))
+  | ["setpath", m, v, path] => do some (.setPath (← m.toNat?) (← parseVal? v) path)
   | ["delspec", m, v] => do some (.delSpec (← m.toNat?) (← parseVal? v))
   | ["close", m] => m.toNat?.map .close
   | _ => none
